@@ -149,41 +149,40 @@ structure DGraph where
 
 abbrev Frame := Option Nat × String
 
-/-- detectors/utils.py search_paths; `none` = the Python raises (assert / KeyError) -/
+/-- results of the recursive calls on the successors, concatenated in order; `none` if any call raises -/
+def collect (f : Nat → Option (List (List Nat))) : List Nat → Option (List (List Nat))
+  | [] => some []
+  | nb :: rest =>
+    match f nb, collect f rest with
+    | some r, some rs => some (r ++ rs)
+    | _, _ => none
+
+/-- detectors/utils.py search_paths; `none` = the Python raises (assert / KeyError).
+    `fuel` bounds the recursion depth. -/
 def searchPaths (g : DGraph) : Nat → Nat → List Nat → List Frame → List (List Nat) → Option (List (List Nat))
   | 0, _, _, _, _ => none
   | fuel + 1, bb, path, cs, exe =>
     if (exe.getLast?.getD []).contains bb then some [] else
     if g.validated bb then some [] else
-    let path' := path ++ [bb]
-    if g.isLeaf bb then some [path'] else
+    if g.isLeaf bb then some [path ++ [bb]] else
     let exe1 := exe.dropLast ++ [exe.getLast?.getD [] ++ [bb]]
-    let go (cs : List Frame) (exe1 : List (List Nat)) : Option (List (List Nat)) :=
-      if g.isRetsub bb then
-        match cs.getLast? with
-        | some (some cb, _) =>
-          match g.retPoint cb with
-          | some rp => searchPaths g fuel rp path' cs.dropLast exe1.dropLast
-          | none => some []
-        | _ => none
-      else
-        -- next_blocks_global for a non-retsub block
-        let nx : Option (List Nat) :=
-          if g.isCallsub bb then (g.calledSub bb).bind g.subEntry |>.map ([·]) else some (g.next bb)
-        match nx with
-        | none => none
-        | some nx =>
-          nx.foldl (fun acc nb =>
-            match acc with
-            | none => none
-            | some ps => (searchPaths g fuel nb path' cs exe1).map (ps ++ ·)) (some [])
     if g.isCallsub bb then
       match g.calledSub bb with
       | none => none
       | some s =>
         if (cs.map Prod.snd).contains s then some []
-        else go (cs ++ [(some bb, s)]) (exe1 ++ [[]])
-    else go cs exe1
+        else
+          match g.subEntry s with
+          | none => none
+          | some e => searchPaths g fuel e (path ++ [bb]) (cs ++ [(some bb, s)]) (exe1 ++ [[]])
+    else if g.isRetsub bb then
+      match cs.getLast? with
+      | some (some cb, _) =>
+        match g.retPoint cb with
+        | some rp => searchPaths g fuel rp (path ++ [bb]) cs.dropLast exe1.dropLast
+        | none => some []
+      | _ => none
+    else collect (fun nb => searchPaths g fuel nb (path ++ [bb]) cs exe1) (g.next bb)
 
 def mkDGraph (f : Function) (validated : Nat → Bool) : DGraph :=
   let blk (k : Nat) : FBlock := (f.block? k).getD default
